@@ -75,7 +75,14 @@ def main(argv=None) -> int:
     s.add_argument("prop", nargs="?")
     s.add_argument("--repo", default=os.environ.get("AGILINT_REPO", "/repo"))
     s.add_argument("--jobs", type=int, default=16)
+    al = sub.add_parser("alpha")
+    al.add_argument("props", nargs="*")
+    al.add_argument("--repo", default=os.environ.get("AGILINT_REPO", "/repo"))
     args = ap.parse_args(argv)
+    if args.cmd == "alpha":
+        from .alpha import run_alpha
+
+        return run_alpha(args.props or PROPS, args.repo)
     if args.cmd == "check":
         tier = args.tier if args.tier in ("quick", "thorough") else "quick"
         rc = run_check(args.prop, tier, args.repo)
